@@ -2,6 +2,7 @@ import DtsVerif.Drv.Merge
 import DtsVerif.Drv.Sections
 import DtsVerif.Drv.Shift
 import DtsVerif.Drv.Calib
+import DtsVerif.Drv.Guards
 /-! Line-protocol driver: one JSON request per line on stdin, one JSON reply per line on stdout. -/
 open Lean DtsVerif.Drv
 
@@ -17,6 +18,7 @@ def dispatch (op : String) (j : Json) : R Json :=
   | "layout" => opLayout j
   | "calib.temps" => opTemps j
   | "propagate" => opPropagate j
+  | "guard" => opGuard j
   | _ => throw "bad-op"
 
 def handle (line : String) : String :=
